@@ -38,6 +38,7 @@ type conCase struct {
 	from   cState
 	to     cState
 	group  string // cases of one group must agree
+	hcl    bool   // the state that is not the --url database is given as an HCL file + --dev-url (normalised on the dev database)
 }
 
 func conSchema(s cState) dSchema {
@@ -239,13 +240,25 @@ func conRun(c conCase) (obs string, stderr string) {
 	switch c.cmd {
 	case "I":
 		args = []string{"schema", "inspect", "--format", "{{ json . }}"}
-		if c.useEnv {
+		switch {
+		case c.hcl: // inspect of an HCL file: stateReaderHCL, normalised on the dev database, then excluded
+			args = append(args, "-u", "file://schema.hcl", "--dev-url", "sqlite://dev?mode=memory")
+			if c.useEnv {
+				args = append(args, "--env", "e")
+			}
+		case c.useEnv:
 			args = append(args, "--env", "e")
-		} else {
+		default:
 			args = append(args, "-u", "sqlite://"+dbA)
 		}
 	case "D":
-		args = []string{"schema", "diff", "--from", "sqlite://" + dbA, "--to", "sqlite://" + dbB, "--format", conDiffTemplate}
+		to := "sqlite://" + dbB
+		args = []string{"schema", "diff", "--from", "sqlite://" + dbA, "--format", conDiffTemplate}
+		if c.hcl {
+			to = "file://schema.hcl"
+			args = append(args, "--dev-url", "sqlite://dev?mode=memory")
+		}
+		args = append(args, "--to", to)
 		if c.useEnv {
 			args = append(args, "--env", "e")
 		}
@@ -474,6 +487,20 @@ func runConsumers(w *out.W, tier string) {
 				cases = append(cases, conCase{cmd: cmd, route: "F3", flags: []string{strings.Join(l[:2], ","), strings.Join(l[2:], ",")}, list: l, from: A, to: B, group: g})
 			}
 		}
+		// the other state reader: an HCL file normalised on a dev database (stateReaderHCL), routes F1 and E
+		if cmd != "A" {
+			f := A
+			if cmd == "I" {
+				f = B // the file IS the inspected state
+			}
+			cases = append(cases, conCase{cmd: cmd, route: "R0", hcl: true, from: f, to: B, group: cmd + "/hcl-none"})
+			for li, l := range lists {
+				g := fmt.Sprintf("%s/hcl-L%d", cmd, li)
+				cases = append(cases,
+					conCase{cmd: cmd, route: "F1", hcl: true, flags: []string{strings.Join(l, ",")}, list: l, from: f, to: B, group: g},
+					conCase{cmd: cmd, route: "E", hcl: true, env: l, useEnv: true, list: l, from: f, to: B, group: g})
+			}
+		}
 		// values that the csv reader of pflag does not copy
 		cases = append(cases,
 			conCase{cmd: cmd, route: "Q", env: []string{"a,b"}, useEnv: true, list: []string{"a,b"}, from: A2, to: B, group: cmd + "/Qenv-comma"},
@@ -520,7 +547,7 @@ func runConsumers(w *out.W, tier string) {
 	none := map[string]string{}
 	for i, c := range cases {
 		if c.route == "R0" {
-			none[c.cmd] = results[i].obs
+			none[fmt.Sprint(c.cmd, c.hcl, len(c.from))] = results[i].obs
 		}
 	}
 	first := map[string]int{}
@@ -529,8 +556,8 @@ func runConsumers(w *out.W, tier string) {
 		obs := results[i].obs
 		w.Case(id, conCaseLine(c), []string{obs})
 		w.Count("consumers:" + c.cmd + ":" + c.route)
-		desc := fmt.Sprintf("cmd=%s route=%s flags=%q env=%q(use=%v) list=%q", map[string]string{"I": "schema inspect", "D": "schema diff", "A": "schema apply --dry-run", "C": "schema clean --auto-approve", "M": "migrate diff"}[c.cmd], c.route, c.flags, c.env, c.useEnv, c.list)
-		if obs != none[c.cmd] {
+		desc := fmt.Sprintf("cmd=%s%s route=%s flags=%q env=%q(use=%v) list=%q", map[bool]string{false: "", true: "[other state = HCL file + --dev-url] "}[c.hcl], map[string]string{"I": "schema inspect", "D": "schema diff", "A": "schema apply --dry-run", "C": "schema clean --auto-approve", "M": "migrate diff"}[c.cmd], c.route, c.flags, c.env, c.useEnv, c.list)
+		if obs != none[fmt.Sprint(c.cmd, c.hcl, len(c.from))] {
 			w.NonTrivial(c.group)
 		}
 		// (a) the routes of one list agree
